@@ -12,12 +12,15 @@
 (* when the timer becomes due).                                             *)
 EXTENDS ClientStream
 
-CONSTANTS MaxQ, MaxId, KaVals
+CONSTANTS MaxQ, MaxId, KaVals,
+          XQs, XfrAll, QVars,      \* zone-transfer questions callers may ask (e.g. {501, 601})
+          XfrIds    \* IDs for which the peer sends zone-transfer responses
 
 Questions == 1..MaxQ
-MCFrames == AlphabetOf(0..MaxId, Questions, KaVals)
+MCFrames == AlphabetOf(0..MaxId, Questions, KaVals, QVars) \cup XfrAlphabetOf(XfrIds, XQs, IF XfrAll THEN XfrRecsAll ELSE XfrRecsFew)
 
-Callers == \E r \in Reqs, q \in Questions : Submit(r, q)
+Callers == \/ \E r \in Reqs, q \in Questions : Submit(r, q)
+           \/ \E r \in Reqs, q \in XQs : SubmitMulti(r, q)
 
 Next == Callers \/ DropHandles \/ Internal \/ Tick \/ Peer
 
@@ -26,7 +29,7 @@ Spec == InitPred /\ [][Next]_vars
 \* the transport task and the clock keep running
 LiveSpec == Spec /\ WF_vars(Internal) /\ WF_vars(Tick)
 
-MacroNext == \E o \in OpsOf(Cur, Questions, MCFrames) : Set(Apply(Cur, o))
+MacroNext == \E o \in OpsOf(Cur, Questions \cup XQs, MCFrames) : Set(Apply(Cur, o))
 MacroSpec == InitPred /\ [][MacroNext]_vars
 
 \* every macro state is quiescent
